@@ -152,6 +152,10 @@ WIDE_PATS = [
     {"off": -7, "ds": [2, 60, 100, 800], "fl": 400},
     {"off": 11, "ds": [8, 8, 8, 8], "fl": 70},
     {"off": 9000, "ds": [1, 9, 30], "fl": 95},
+    # round 9: log-posteriors of classes with a ZERO posterior are -inf (masked outputs, log of a hard zero): nothing may be stored
+    # for them (a product like -inf * 0 is nan) and the kept logits next to them stay exact
+    {"off": 3, "ds": [2, 6, 9], "fl": L.SPINF},
+    {"off": -2, "ds": [1], "fl": L.SPINF},
 ]
 WIDE_ENGINES = [{"type": "pt", "bs": 2, "alpha": 1, "nsym": 10, "pats": WIDE_PATS}, {"type": "pt", "bs": 1, "alpha": 2, "nsym": 7, "pats": WIDE_PATS},
                 {"type": "pt", "bs": 16, "alpha": 3, "nsym": 10, "pats": WIDE_PATS}]
